@@ -23,7 +23,7 @@ ASSUMPTIONS = ['TLV encodings are prefix-free: no proper prefix of a valid encod
 SHARDS = {'quick': (16, 45), 'thorough': (16, 2000)}
 BUDGET = {'quick': 100, 'thorough': 1500}
 MIN_NONTRIVIAL = {'quick': 500, 'thorough': 5000}
-CFG = {'long_str_pct': 0, 'max_depth': 2, 'max_comps': 3}
+CFG = {'long_str_pct': 0, 'max_depth': 2, 'max_comps': 3, 'many_elems_pct': 0}
 TECHNIQUE = 'property-based generation of encodings + exhaustive enumeration of cut points (fault injection) on stream doubles'
 
 
